@@ -863,8 +863,8 @@ func (x *Exec) loopHeader(st *State, fr *Frame, h *ssa.BasicBlock, ord int, phis
 	// has been visited
 	for _, b := range li.body[h] {
 		for _, instr := range b.Instrs {
-			if nx, ok := instr.(*ssa.Next); ok && !nx.IsString {
-				if it, ok := fr.regs[nx.Iter].(IterV); ok && it.MT != nil {
+			if nx, ok := instr.(*ssa.Next); ok {
+				if it, ok := fr.regs[nx.Iter].(IterV); ok && (it.MT != nil || it.Str) {
 					it.Visited = x.sym.fresh("visited", it.Visited.Sort)
 					fr.regs[nx.Iter] = it
 				}
